@@ -613,7 +613,9 @@ func (r *runner) restorer(rp RestoreProg, wg *sync.WaitGroup) {
 	if err == nil {
 		for res := next(); res != nil; res = next() {
 			items = append(items, res)
-			c.Items = append(c.Items, r.item(res))
+			if r.tgt.Uni.owns(res.GetId()) {
+				c.Items = append(c.Items, r.item(res))
+			}
 		}
 	}
 	r.addCalls([]Call{c})
